@@ -1086,6 +1086,8 @@ func (vc *VC) applyAnchoredAt(st *State, pos token.Pos, callArgs []ast.Expr, it 
 	if n := vc.oblCount[name]; n > 1 {
 		name += fmt.Sprintf("#%d", n)
 	}
+	// vacuity guard: the anchored program point must be reachable under the assumptions made so far
+	vc.cover(st, name+"#cover[reach]", pos)
 	vc.assert(st, name, "assert", pos, it.gu.Src, g)
 	st.assume(g)
 }
